@@ -34,7 +34,7 @@ from harness.tlc import run_tlc, MachineryError
 from harness.traces import validate
 
 PID = 'C05'
-DTYPES = ['float32', 'float64', 'int32', 'uint16']
+DTYPES = ['float32', 'float64', 'int32', 'uint16', 'bool', 'uint8', 'int64']      # (scipy has no sparse float16)
 LAYOUTS = ['default', 'contiguous', 'tiny', 'unsorted']
 
 
